@@ -75,7 +75,8 @@ type History struct {
 // Val is a table entry of a history's value alphabet.
 type Val struct {
 	Text  string // canonical ZSON (zson.FormatValue)
-	Key   string // key atom
+	Key   string // intended pool key of the value (the oracle's reading of the property)
+	MKey  string // pool key as the implementation derives it (what the model is told)
 	Bytes []byte // zcode body
 	Ty    int    // interned type
 }
@@ -87,7 +88,7 @@ type Table struct {
 
 // NewTable parses the value alphabet with the real ZSON parser (bytes and types are the real
 // ones; the key atom is the generator's).
-func NewTable(texts, keys []string) (*Table, error) {
+func NewTable(cfg Cfg, texts, keys []string) (*Table, error) {
 	t := &Table{byText: map[string]int{}}
 	zctx := zed.NewContext()
 	types := map[string]int{}
@@ -107,7 +108,12 @@ func NewTable(texts, keys []string) (*Table, error) {
 			return nil, fmt.Errorf("duplicate value %q in alphabet", text)
 		}
 		t.byText[text] = i
-		t.Vals = append(t.Vals, Val{Text: text, Key: keys[i], Bytes: append([]byte(nil), v.Bytes()...), Ty: ty})
+		mkey := keys[i]
+		if cfg.Key == "this" {
+			// sort key path ["this"] is looked up as a *field* named this: missing -> null
+			mkey = "n"
+		}
+		t.Vals = append(t.Vals, Val{Text: text, Key: keys[i], MKey: mkey, Bytes: append([]byte(nil), v.Bytes()...), Ty: ty})
 	}
 	return t, nil
 }
@@ -185,7 +191,7 @@ func (t *Table) CanonTies(seq []int) []int {
 	i := 0
 	for i < len(out) {
 		j := i + 1
-		for j < len(out) && KeyCmp(t.Vals[out[j]].Key, t.Vals[out[i]].Key) == 0 {
+		for j < len(out) && KeyCmp(t.Vals[out[j]].MKey, t.Vals[out[i]].MKey) == 0 {
 			j++
 		}
 		sort.Ints(out[i:j])
@@ -305,6 +311,8 @@ func ErrClass(err error) string {
 		return "no-vector"
 	case has("non-existent object"):
 		return "not-found"
+	case has("commit object already exists"):
+		return "exists"
 	case has("commit object not found"):
 		return "not-found"
 	case has("branch already exists"), has("already exists"):
